@@ -204,7 +204,7 @@ def random_ops(rng, n):
 
 def run(ctx):
     ctx.mc("DnsCacheMC", ctx.pick("DnsCacheMC.cfg", "DnsCacheMC.thorough.cfg"), coverage=False)
-    ctx.mc("DnsCacheMC", "DnsCacheMC.cov.cfg", label="vacuity guard (coverage)")
+    ctx.mc("DnsCacheMC", "DnsCacheMC.cov.cfg", workers=1, label="vacuity guard (coverage)")
     ctx.require_actions("DnsCacheMC", ["CacheResult", "LookupHit", "LookupMiss", "LookupStale", "LookupAll", "ClearEntry", "Advance"])
     ctx.assumptions.append("payload lists handed to cacheResult are not touched by the caller afterwards (the cache keeps them by reference)")
 
@@ -213,7 +213,7 @@ def run(ctx):
         for ops in exhaustive_histories(n):
             traces.append(run_history(ops))
     nex = len(traces)
-    for _ in range(ctx.pick(2500, 40000)):
+    for _ in range(ctx.pick(2500, 20000)):
         traces.append(run_history(random_ops(ctx.rng, ctx.rng.randint(4, 40))))
     ctx.extra["exhaustive_short_histories"] = nex
     ctx.extra["random_histories"] = len(traces) - nex
